@@ -24,7 +24,8 @@ correspondence check on dumps of real subtrees; helpers are the *generated* defi
 * reached subtree is marked / unreached subtree is the very same value .... `edit_marks_root`,
   `edit_untouched_same`
 * stand-alone helpers and stored ranges move by the same map φ ............. `point_edit_eq_phi`,
-  `range_edit_eq_phi` (closed ranges), `range_edit_open_end` (open end `UINT32_MAX` stays open);
+  `range_edit_eq_phi` (closed ranges), `range_edit_open_end` (open end `UINT32_MAX` stays open),
+  `range_edit_sat` (every 32-bit range: open ends and overflow saturate to the open end);
   the tree's STORED ranges: `treeEdit` maps `ts_range_edit` over them, and the judge applied to the
   real tree's ranges accepts exactly that ........ `rangesJudge_model`;
   `ts_node_edit` is `ts_point_edit` on the node's start (three assignments in node.c): not ported,
@@ -162,6 +163,93 @@ theorem range_edit_eq_phi (r : TSRange) (e : TSInputEdit)
     by_cases h3 : r.start_byte ≥ e.old_end_byte <;> by_cases h4 : r.start_byte > e.start_byte <;>
     simp [h1, h2, h3, h4, hne, w1, w2, n1] <;> (try omega)
 
+/-- First phase of `ts_range_edit`: the END of the range. -/
+def rangeEditEnd (range : TSRange) (edit : TSInputEdit) : TSRange :=
+  if (range.end_byte ≥ edit.old_end_byte) then
+    if (range.end_byte ≠ 4294967295) then
+      let range := { range with end_byte := ((edit.new_end_byte + ((range.end_byte + 4294967296 - edit.old_end_byte) % 4294967296)) % 4294967296) }
+      let range := { range with end_point := (point_add edit.new_end_point (point_sub range.end_point edit.old_end_point)) }
+      if (range.end_byte < edit.new_end_byte) then
+        let range := { range with end_byte := 4294967295 }
+        let range := { range with end_point := POINT_MAX }
+        range
+      else
+        range
+    else
+      range
+  else
+    if (range.end_byte > edit.start_byte) then
+      let range := { range with end_byte := edit.start_byte }
+      let range := { range with end_point := edit.start_point }
+      range
+    else
+      range
+
+/-- Second phase of `ts_range_edit`: the START of the range. -/
+def rangeEditStart (range : TSRange) (edit : TSInputEdit) : TSRange :=
+  if (range.start_byte ≥ edit.old_end_byte) then
+    let range := { range with start_byte := ((edit.new_end_byte + ((range.start_byte + 4294967296 - edit.old_end_byte) % 4294967296)) % 4294967296) }
+    let range := { range with start_point := (point_add edit.new_end_point (point_sub range.start_point edit.old_end_point)) }
+    if (range.start_byte < edit.new_end_byte) then
+      let range := { range with start_byte := 4294967295 }
+      let range := { range with start_point := POINT_MAX }
+      range
+    else
+      range
+  else
+    if (range.start_byte > edit.start_byte) then
+      let range := { range with start_byte := edit.start_byte }
+      let range := { range with start_point := edit.start_point }
+      range
+    else
+      range
+
+theorem range_edit_phases (r : TSRange) (e : TSInputEdit) :
+    ts_range_edit r e = rangeEditStart (rangeEditEnd r e) e := rfl
+
+theorem rangeEditStart_end (x : TSRange) (e : TSInputEdit) : (rangeEditStart x e).end_byte = x.end_byte := by
+  unfold rangeEditStart; dsimp only
+  repeat' split
+  all_goals rfl
+
+theorem rangeEditEnd_start (x : TSRange) (e : TSInputEdit) : (rangeEditEnd x e).start_byte = x.start_byte := by
+  unfold rangeEditEnd; dsimp only
+  repeat' split
+  all_goals rfl
+
+theorem rangeEditEnd_end (x : TSRange) (e : TSInputEdit)
+    (he : x.end_byte < 4294967296) (hn : e.new_end_byte < 4294967296) :
+    (rangeEditEnd x e).end_byte = movedEndSat x.end_byte e := by
+  unfold rangeEditEnd movedEndSat
+  dsimp only
+  repeat' split
+  all_goals simp_all
+  all_goals omega
+
+theorem rangeEditStart_start (x : TSRange) (e : TSInputEdit)
+    (hs : x.start_byte < 4294967296) (hn : e.new_end_byte < 4294967296) :
+    (rangeEditStart x e).start_byte = movedStartSat x.start_byte e := by
+  unfold rangeEditStart movedStartSat
+  dsimp only
+  repeat' split
+  all_goals simp_all
+  all_goals omega
+
+/-- `range_edit_sat`: the byte ends of `ts_range_edit` for EVERY 32-bit range and edit (including
+open ends, `UINT32_MAX` sentinels and shifts that overflow 32 bits): the end moves by `movedEndSat`,
+the start by `movedStartSat`.  Contains `range_edit_eq_phi` and the byte part of
+`range_edit_open_end`; the stand-alone helper (also through the Rust binding's
+`InputEdit::edit_range`) and `ts_tree_edit`'s stored ranges are both judged against it. -/
+theorem range_edit_sat (r : TSRange) (e : TSInputEdit)
+    (hs : r.start_byte < 4294967296) (he : r.end_byte < 4294967296)
+    (hn : e.new_end_byte < 4294967296) :
+    (ts_range_edit r e).end_byte = movedEndSat r.end_byte e ∧
+    (ts_range_edit r e).start_byte = movedStartSat r.start_byte e :=
+  by
+  rw [range_edit_phases, rangeEditStart_end, rangeEditEnd_end r e he hn,
+    rangeEditStart_start _ e (by rw [rangeEditEnd_start]; exact hs) hn, rangeEditEnd_start]
+  exact ⟨rfl, rfl⟩
+
 /-- `range_edit_open_end`: a range whose end is open (`UINT32_MAX`, the default "to the end of the
 document" range of every tree parsed without explicit ranges) keeps its open end and end point under
 every edit, and its start moves like any other position. -/
@@ -196,15 +284,9 @@ theorem rangesJudge_model (rs : List TSRange) (e : TSInputEdit) :
     rw [if_neg, if_neg]
     · exact ih (i + 1)
     · rintro ⟨h1, h2, h3, h4, h5⟩
-      have := range_edit_open_end r e h1 h2 h3 h4
-      simp only [movedByte] at h5
-      rcases h5 with h5 | h5 | h5
-      · exact h5 this.1
-      · exact h5 this.2.1
-      · exact h5 this.2.2
-    · rintro ⟨h1, h2, h3, h4, h5⟩
-      have := range_edit_eq_phi r e h1 h2 h3 h4
-      simp only [movedByte] at h5
+      exact h5 (range_edit_open_end r e h1 h2 h3 h4).2.1
+    · rintro ⟨h1, h2, h3, h5⟩
+      have := range_edit_sat r e h1 h2 h3
       rcases h5 with h5 | h5
       · exact h5 this.1
       · exact h5 this.2
